@@ -717,6 +717,34 @@ def gen_paths(rng):
                 opts.append(flag)
         return {"tool": "yaml-paths", "opts": opts, "names": names,
                 "files": files, "exprs": exprs, "eyaml": True}
+    if rng.random() < 0.12:
+        # One document whose hashes inherit through YAML merge keys, searched
+        # by key name under --anchorsonly: the printed paths are bare, so an
+        # oracle that owes nothing to yaml-paths' own code can walk them
+        # (judge_paths: only physically present keys may be named).
+        doc = doc_for(rng, sets=False, mergekeys=True,
+                      rich_merge_sources=True, anchors=True, max_nodes=16)
+        keys = sorted({str(s[-1][1]) for s, _n in gen_docs.positions(doc)
+                       if s and s[-1][0] == "k"
+                       and isinstance(s[-1][1], str)
+                       and s[-1][1].isalnum()}) or ["a"]
+        # preferably a key well above a hash that inherits
+        above = sorted({str(seg[1])
+                        for s_, n_ in gen_docs.positions(doc)
+                        if n_["t"] == "m" and n_.get("merge")
+                        for seg in s_[:-1]
+                        if seg[0] == "k" and isinstance(seg[1], str)
+                        and seg[1].isalnum()})
+        opts = ["-s", "=" + rng.choice(above if above and
+                                       rng.random() < 0.7 else keys),
+                "-F", "-A", rng.choice(["-K", "-k"])]
+        if rng.random() < 0.75:
+            opts.append("-m")
+        if rng.random() < 0.5:
+            opts += ["-t", rng.choice(["dot", "fslash"])]
+        return {"tool": "yaml-paths", "opts": opts, "names": [W + "p0.yaml"],
+                "files": {W + "p0.yaml": gen_docs.to_yaml(doc, start=True)},
+                "exprs": [opts[1]], "bare_paths": True}
     nfiles = rng.choice([1, 1, 2])
     files = {}
     names = []
@@ -920,7 +948,57 @@ def judge_paths(scn, res, names, files, stdin_text, implicit):
             return fixed
         if norm(got) != norm(lines):
             out.append("paths:printed-lines-differ-from-search-results")
+    if not out and scn.get("bare_paths") and res.exit == 0:
+        out.extend(only_own_keys(scn, got, files, stdin_text, names))
     return out
+
+
+def only_own_keys(scn, printed, files, stdin_text, names):
+    """
+    --anchorsonly: "discarding all aliased keys and values (including child
+    nodes)".  A pair that a hash merely inherits through ``<<:`` is not
+    physically there; no printed path may name one.  Walks each printed
+    path over ``non_merged_items()`` -- no yaml-paths code involved.
+    """
+    text = stdin_text if not names or names[0] == "-" \
+        else files.get(names[0])
+    docs, okay = strict_load_all(text or "")
+    if not okay or len(docs) != 1:
+        return []
+    for line in printed:
+        try:
+            segs = list(YAMLPath(line).escaped)
+        except YAMLPathException:
+            return ["paths:printed-something-that-is-not-a-yaml-path"]
+        node = docs[0]
+        for kind, ref in segs:
+            if isinstance(node, dict):
+                own = {str(k): v for k, v in (
+                    node.non_merged_items()
+                    if hasattr(node, "non_merged_items") else node.items())}
+                if str(ref) not in own:
+                    if str(ref) in {str(k) for k in node.keys()}:
+                        return ["paths:inherited-key-printed-under-"
+                                "anchorsonly"]
+                    return []      # not a plain key segment: not judged
+                node = own[str(ref)]
+            elif isinstance(node, list):
+                name = str(ref)
+                if name.startswith("&"):
+                    hits = [e for e in node
+                            if getattr(getattr(e, "anchor", None), "value",
+                                       None) == name[1:]]
+                    if not hits:
+                        return []
+                    node = hits[0]
+                else:
+                    try:
+                        node = node[int(name)]
+                    except (ValueError, IndexError):
+                        return []
+            else:
+                break
+    return []
 
 
 # ----------------------------------------------------------------------
